@@ -1,4 +1,4 @@
-import PytezosModel.Proofs.KeyLemmas
+import PytezosModel.Proofs.KeyCheck
 import PytezosModel.Proofs.KeyToy
 /-! C07 — signing and verification are correct for every key kind.
 
@@ -31,23 +31,18 @@ theorem sign_verify (P : Prims) (C : Codec) (L : Laws P) (CL : CodecLaws C sigRo
     (k : Key) (hk : ValidKey P k) (msg : PyIn) (m : Bytes) (hm : scrub msg = .ok m) (generic : Bool) :
     ∃ s pfx, sign P C k msg generic = .ok s ∧ verify P C k (.str s) msg = .ok true ∧
       pfx <+: s ∧ (pfx = sigTag ∨ pfx = k.curve.tag ++ sigTag) ∧ (generic = false → pfx = k.curve.tag ++ sigTag) := by
-  obtain ⟨sk, hsec, hne, hkp⟩ := hk
-  obtain ⟨dg, hsdg, hvdg, _⟩ := payloadKinds k.curve
-  obtain ⟨pfx, r, hpfx, hrow, hlen, hform, hspec⟩ := signPrefix_row k.curve generic
-  obtain ⟨hr, hhuman⟩ := sigRowOf_mem pfx r hrow
-  obtain ⟨raw, hsign, hacc⟩ := L.sign_verify k.curve k.pub sk hkp (payload P dg m)
-  obtain ⟨hrl, hrb⟩ := L.sign_len k.curve sk _ raw hsign
-  obtain ⟨s, henc, hdec, _, hpre, hascii⟩ := CL.enc_dec r hr raw (by rw [hrl, hlen]) hrb
-  rw [hhuman] at henc hpre
-  refine ⟨s, pfx, ?_, ?_, hpre, hform, hspec⟩
-  · have : sk.isEmpty = false := by cases sk with | nil => exact absurd rfl hne | cons _ _ => rfl
-    simp [sign, hm, hsec, this, hsdg, hpfx, hsign, henc]
-  · obtain ⟨p, hp, hpp⟩ := sig_prefix_nonhex k.curve pfx hform
-    have hs : scrub (.str s) = .ok s := scrub_str_nonhex s p hp (hpp.trans hpre) hascii
-    have hpub : k.pub ≠ [] := by
-      have := (L.pk_len k.curve k.pub sk hkp).1
-      intro h0; rw [h0] at this; cases hc : k.curve <;> simp [hc, pkLen] at this
-    exact verify_accepts P C k _ _ s m raw dg hs hm hpub (precheck_passes k.curve pfx s hform hpre) hdec hvdg hacc
+  obtain ⟨s, pfx, _, h1, h2, h3, h4, h5, _⟩ := sign_verify_core P C L CL k hk msg m hm generic
+  exact ⟨s, pfx, h1, h2, h3, h4, h5⟩
+
+/-- … and the primitive was given Blake2b-256 of the message (the message itself for BLS): the text decodes to
+exactly the raw signature the curve's primitive makes for that payload under the key's secret — this is what an
+independent implementation of the scheme is then asked to accept (sampled by the harness). -/
+theorem sign_payload (P : Prims) (C : Codec) (L : Laws P) (CL : CodecLaws C sigRows)
+    (k : Key) (hk : ValidKey P k) (msg : PyIn) (m : Bytes) (hm : scrub msg = .ok m) (generic : Bool) :
+    ∃ s raw sk, sign P C k msg generic = .ok s ∧ C.decode s = some raw ∧ raw.length = sigLen k.curve ∧
+      k.sec = some sk ∧ P.sign k.curve sk (if k.curve = .bl then m else P.blake2b 32 m) = some raw := by
+  obtain ⟨s, _, raw, h1, _, _, _, _, _, hdec, hlen, sk, hsec, hsign⟩ := sign_verify_core P C L CL k hk msg m hm generic
+  exact ⟨s, raw, sk, h1, hdec, hlen, hsec, hsign⟩
 
 /-- **what acceptance means**: `Key.verify` returns True exactly when both inputs scrub, the signature text is
 generic (`sig…`) or carries the key's own curve tag, it Base58-decodes, and the *primitive of the key's own
@@ -104,25 +99,10 @@ theorem curve_mismatch_rejected (P : Prims) (C : Codec) (L : Laws P) (CL : Codec
     (k k' : Key) (hk' : ValidKey P k') (hne : k.curve ≠ k'.curve) (hpub : k.pub ≠ [])
     (msg msg' : PyIn) (m m' : Bytes) (hm : scrub msg = .ok m) (hm' : scrub msg' = .ok m') :
     ∃ s, sign P C k' msg' false = .ok s ∧ verify P C k (.str s) msg = .error (.valueError .curveMismatch) := by
-  obtain ⟨s, pfx, hsig, _, hpre, hform, hspec⟩ := sign_verify P C L CL k' hk' msg' m' hm' false
+  obtain ⟨s, pfx, _, hsig, _, hpre, _, hspec, hs, _⟩ := sign_verify_core P C L CL k' hk' msg' m' hm' false
   have hp := hspec rfl
   subst hp
   refine ⟨s, hsig, ?_⟩
-  obtain ⟨p, hp, hpp⟩ := sig_prefix_nonhex k'.curve _ hform
-  obtain ⟨sk, hsec, hne', hkp⟩ := hk'
-  -- the signature text is ASCII and not hex: recover that from the codec law through `sign`
-  have hs : scrub (.str s) = .ok s := by
-    obtain ⟨dg, hsdg, _, _⟩ := payloadKinds k'.curve
-    obtain ⟨pfx, r, hpfx, hrow, hlen, _, _⟩ := signPrefix_row k'.curve false
-    obtain ⟨hr, hhuman⟩ := sigRowOf_mem pfx r hrow
-    obtain ⟨raw, hsign, _⟩ := L.sign_verify k'.curve k'.pub sk hkp (payload P dg m')
-    obtain ⟨hrl, hrb⟩ := L.sign_len k'.curve sk _ raw hsign
-    obtain ⟨s', henc, _, _, _, hascii⟩ := CL.enc_dec r hr raw (by rw [hrl, hlen]) hrb
-    have hnes : sk.isEmpty = false := by cases sk with | nil => exact absurd rfl hne' | cons _ _ => rfl
-    rw [hhuman] at henc
-    have : sign P C k' msg' false = .ok s' := by simp [sign, hm', hsec, hnes, hsdg, hpfx, hsign, henc]
-    rw [hsig] at this; cases this
-    exact scrub_str_nonhex s p hp (hpp.trans hpre) hascii
   have hne0 : k.pub.isEmpty = false := by cases hkk : k.pub with | nil => exact absurd hkk hpub | cons _ _ => rfl
   simp [verify, hs, hm, hne0, precheck_fails k.curve k'.curve hne s hpre]
 
